@@ -31,7 +31,11 @@ def run_harness(name, timeout_s=600, mem_gb=12, extra=()):
     cmd = 'ulimit -v %d; exec timeout %d cargo kani -Z stubbing --harness %s --target-dir %s %s' % (
         mem_gb * 1024 * 1024, timeout_s, name, tdir, ' '.join(extra))
     t0 = time.time()
-    r = subprocess.run(['bash', '-c', cmd], cwd=crate, env=env, stdout=subprocess.PIPE, stderr=subprocess.STDOUT, text=True)
+    # the harness's target directory is shared by all runs: exclusive use, and sources newer than any artefact in it (see build.py)
+    with build.target_lock('target-kani-' + name):
+        build._touch_sources(build.copy_repo())
+        build._touch_sources(crate)
+        r = subprocess.run(['bash', '-c', cmd], cwd=crate, env=env, stdout=subprocess.PIPE, stderr=subprocess.STDOUT, text=True)
     out = r.stdout
     wall = time.time() - t0
     status = 'inconclusive'
